@@ -276,6 +276,17 @@ impl Rasn {
         tld: ToplevelValueDefinition,
     ) -> Result<TokenStream, GeneratorError> {
         let ty = &tld.associated_type;
+        // the bindings of a value name its type, and an anonymous constructed type has no name
+        if matches!(
+            ty,
+            ASN1Type::Choice(_) | ASN1Type::Enumerated(_) | ASN1Type::Sequence(_) | ASN1Type::Set(_)
+        ) {
+            return Err(GeneratorError::new(
+                Some(ToplevelDefinition::Value(tld)),
+                "Values of types that are defined in the value assignment itself are currently unsupported!",
+                GeneratorErrorType::NotYetInplemented,
+            ));
+        }
         match &tld.value {
             ASN1Value::Null if ty.is_builtin_type() => {
                 call_template!(self, primitive_value_template, tld, quote!(()), quote!(()))
